@@ -67,6 +67,7 @@ pub fn minimise(
                 stdout_fail_at: s.io.stdout_fail_at,
                 stdout_errno: s.io.stdout_errno,
                 stop_at_input_byte: s.io.stop_at_input_byte,
+                stall_at: s.io.stall_at,
                 ..Default::default()
             };
         }
